@@ -51,7 +51,7 @@ def _maps(rng, vals_lo, vals_hi, present):
 
 
 def gen(rng, tier):
-    n = 700 if tier == 'quick' else 12000
+    n = G.budget(700) if tier == 'quick' else 12000
     for _ in range(n):
         labs, akind = G.alphabet(rng)
         form = rng.choice(['list', 'arr1', 'arr2', 'lol', 'loa', 'loa', 'tuple'])
